@@ -119,6 +119,36 @@ func checkC15(w *World, c *Check, tier string) {
 		}
 	}
 
+	// ---- path representation: what Split writes back into URL.Path comes from URL.Path itself ----
+	if sp := w.Method("CollectionPaths", "Split"); sp != nil {
+		for _, f := range w.Reach([]*ssa.Function{sp}, nil) {
+			for _, b := range f.Blocks {
+				for _, in := range b.Instrs {
+					st, ok := in.(*ssa.Store)
+					if !ok {
+						continue
+					}
+					fa, ok := st.Addr.(*ssa.FieldAddr)
+					if !ok {
+						continue
+					}
+					n := namedOf(fa.X.Type())
+					if n == nil || n.Obj().Pkg() == nil || n.Obj().Pkg().Path() != "net/url" || fieldNameOf(fa.X.Type(), fa.Field) != "Path" {
+						continue
+					}
+					src := urlComponentSources(st.Val, 0, map[ssa.Value]bool{})
+					sort.Strings(src)
+					key := funcName(f) + ":URL.Path←" + strings.Join(src, "+")
+					if len(src) == 1 && src[0] == "Path" {
+						c.ok("C15.route", key, w.InstrPos(st), "the owner path is cut out of the decoded path it is stored back into")
+					} else {
+						c.bad("C15.route", key, w.InstrPos(st), fmt.Sprintf("%s stores into URL.Path a value derived from %v: mixing the escaped and the decoded representation escapes the owner twice (or not at all) for owner paths with percent-escapes", funcName(f), src))
+					}
+				}
+			}
+		}
+	}
+
 	// ---- fields ----
 	actor, object := w.StructInfoOf("Actor"), w.StructInfoOf("Object")
 	cpT := w.Named("CollectionPath")
@@ -263,5 +293,59 @@ func fieldsTouched(ip *Interp, fn *ssa.Function, structs []*StructInfo) map[stri
 	}
 	visit(fn)
 	_ = strings.Join
+	return out
+}
+
+// urlComponentSources: which url.URL components / methods a string value derives from.
+func urlComponentSources(v ssa.Value, d int, seen map[ssa.Value]bool) []string {
+	if v == nil || d > 20 || seen[v] {
+		return nil
+	}
+	seen[v] = true
+	var out []string
+	add := func(xs []string) {
+		for _, x := range xs {
+			dup := false
+			for _, o := range out {
+				if o == x {
+					dup = true
+				}
+			}
+			if !dup {
+				out = append(out, x)
+			}
+		}
+	}
+	isURL := func(t types.Type) bool {
+		n := namedOf(t)
+		return n != nil && n.Obj().Pkg() != nil && n.Obj().Pkg().Path() == "net/url" && n.Obj().Name() == "URL"
+	}
+	switch x := v.(type) {
+	case *ssa.UnOp:
+		if fa, ok := x.X.(*ssa.FieldAddr); ok && isURL(fa.X.Type()) {
+			return []string{fieldNameOf(fa.X.Type(), fa.Field)}
+		}
+		add(urlComponentSources(x.X, d+1, seen))
+	case *ssa.Call:
+		if cal := x.Common().StaticCallee(); cal != nil && cal.Signature.Recv() != nil && isURL(cal.Signature.Recv().Type()) {
+			return []string{cal.Name() + "()"}
+		}
+		for _, a := range allArgs(x) {
+			add(urlComponentSources(a, d+1, seen))
+		}
+	case *ssa.Extract:
+		add(urlComponentSources(x.Tuple, d+1, seen))
+	case *ssa.Phi:
+		for _, e := range x.Edges {
+			add(urlComponentSources(e, d+1, seen))
+		}
+	case *ssa.Convert:
+		add(urlComponentSources(x.X, d+1, seen))
+	case *ssa.BinOp:
+		add(urlComponentSources(x.X, d+1, seen))
+		add(urlComponentSources(x.Y, d+1, seen))
+	case *ssa.Slice:
+		add(urlComponentSources(x.X, d+1, seen))
+	}
 	return out
 }
